@@ -17,7 +17,7 @@ def run(ctx):
                'ranges: all (start, end) pairs; CIDR text (thorough): first octet 100..=255 as three symbolic digits; loop-free',
         outside='CIDR mask text via u32::from_str (CBMC aborts on the std integer parser with symbolic digits; the mask value itself is covered for '
                 'all u32 through from_bitcount); table-level lookups are the mirx part',
-        jobs=8, timeout=900 if ctx.quick else 1800)
+        jobs=8, timeout=2400 if ctx.quick else 3600)
     yield iptable_part(ctx)
 
 
